@@ -58,6 +58,7 @@ pub struct RObs {
     pub token_bal: BTreeMap<String, u128>,
     pub supply: u128,
     pub bank: u128,
+    pub accrued_query: BTreeMap<String, u128>,
 }
 
 pub fn all_holders(c: &Chain) -> BTreeMap<String, HolderResponse> {
@@ -104,7 +105,12 @@ impl RObs {
         for a in HOLDERS {
             token_bal.entry(a.to_string()).or_insert_with(|| token_bal_of(c, a));
         }
-        RObs { state: c.query(REWARD, &RQ::State {}).expect("reward state"), holders, token_bal, supply: token_supply(c, BSEI), bank: c.bal(REWARD, KUSD) }
+        let mut accrued_query = BTreeMap::new();
+        for a in holders.keys() {
+            let r: basset::reward::AccruedRewardsResponse = c.query(REWARD, &RQ::AccruedRewards { address: a.clone() }).expect("accrued rewards");
+            accrued_query.insert(a.clone(), r.rewards.u128());
+        }
+        RObs { state: c.query(REWARD, &RQ::State {}).expect("reward state"), holders, token_bal, supply: token_supply(c, BSEI), bank: c.bal(REWARD, KUSD), accrued_query }
     }
     /// exact accrued reward of a holder in 1e-18 units: pending + (global - index) * balance
     pub fn accrued_fp(&self, a: &str) -> Uint256 {
@@ -137,6 +143,8 @@ pub struct G {
     pub ref_hi: BTreeMap<String, u128>,
     /// whole units already claimed per holder
     pub claimed_by: BTreeMap<String, u128>,
+    /// reward coins delivered while nobody held bSei: they belong to the next distribution
+    pub undistributed: u128,
     pub second: Option<Chain>,
 }
 
@@ -186,6 +194,7 @@ impl Scenario for Reward {
         h.update(g.updates.to_le_bytes());
         h.update(g.delivered.to_le_bytes());
         h.update(g.claimed.to_le_bytes());
+        h.update(g.undistributed.to_le_bytes());
         for (k, v) in &g.ref_lo {
             h.update(k.as_bytes());
             h.update(v.to_le_bytes());
@@ -246,6 +255,9 @@ impl Scenario for Reward {
                 v.push(transfer(u, other, BSEI, *a));
             }
             v.push(transfer(u, u, BSEI, 1));
+            if self.with_sink {
+                v.push(transfer(u, HUB, BSEI, 1));
+            }
             if self.with_hub_ops {
                 v.push(unbond(u, BSEI, am[am.len() - 1]));
                 v.push(convert(u, BSEI, 1));
@@ -262,6 +274,7 @@ impl Scenario for Reward {
                 v.push(decrease_allowance(u, DAVE, BSEI, 1, None));
                 v.push(transfer_from(DAVE, u, other, BSEI, 1));
                 v.push(transfer_from(DAVE, u, u, BSEI, 1));
+                v.push(transfer_from(DAVE, u, DAVE, BSEI, 1));
                 v.push(burn_from(DAVE, u, BSEI, 1));
                 v.push(unbond_from(DAVE, u, BSEI, 1));
                 v.push(transfer_from(DAVE, u, other, BSEI, 0));
@@ -285,14 +298,19 @@ impl Scenario for Reward {
                 _ => 0,
             };
             g2.delivered += r;
-            let t = po.state.total_balance.u128();
+            // the reference uses the bSei token's own balances and supply (what a holder really holds) and its own
+            // account of what has been delivered but not distributed yet — nothing of the reward contract's books
+            let t = po.supply;
+            if t == 0 {
+                g2.undistributed += r;
+            }
             if t > 0 {
                 g2.updates += 1;
-                // everything the reward contract holds beyond its recorded balance is distributed now
-                let dist = po.bank + r - po.state.prev_reward_balance.u128();
+                let dist = g.undistributed + r;
+                g2.undistributed = 0;
                 let idx_inc = muldiv(dist, ONE, t); // floor, as Decimal::from_ratio
-                for (h, rec) in &po.holders {
-                    let b = rec.balance.u128();
+                for (h, bal) in &po.token_bal {
+                    let b = *bal;
                     if b == 0 {
                         continue;
                     }
@@ -398,6 +416,12 @@ fn c16_state(o: &RObs, cx: &mut Cx) {
 // C14
 
 fn c14_state(o: &RObs, g: &G, cx: &mut Cx) {
+    for (a, q) in &o.accrued_query {
+        let exact = cosmwasm_std::Uint128::try_from(o.accrued_fp(a) / one256()).map(|x| x.u128()).unwrap_or(u128::MAX);
+        if *q != exact {
+            cx.viol("C14.accrued_query", "AccruedRewards query differs from the whole-unit part of the holder's accrued reward", format!("{}: query {} exact {}", a, q, exact));
+        }
+    }
     let total = o.total_accrued_fp();
     let recorded = u256(o.state.prev_reward_balance.u128()) * one256();
     cx.count("c14_states");
@@ -468,7 +492,7 @@ fn c14_step(po: &RObs, a: &Action, out: &Outcome, qo: &RObs, cx: &mut Cx) {
 fn c15_step(po: &RObs, g2: &G, a: &Action, out: &Outcome, qo: &RObs, is_deliver: bool, is_claim: bool, cx: &mut Cx) {
     // (ii) frame: nothing but a delivery or the holder's own claim changes anybody's accrued reward
     let mut names: Vec<&String> = po.holders.keys().collect();
-    for k in qo.holders.keys() {
+    for k in qo.holders.keys().chain(po.token_bal.keys()) {
         if !names.contains(&k) {
             names.push(k);
         }
